@@ -112,6 +112,10 @@ Definition skey_wf (k : skey) : Prop :=
   | KLastProposers | KSupply | KCommitteesData => True
   end.
 
+(* fsm/message_helpers.go checkOrderId (edit-order, delete-order, lock / reset / close instructions of certificate results): an order
+   id must fit the one-byte length prefix of its key segment - the only attacker-chosen component of variable length in the schema *)
+Definition order_id_ok (id : bytes) : bool := Nat.leb (length id) 255.
+
 (* store partitions (store/store.go) and the version suffix (store/versioned_store.go) *)
 Definition partitions : list bytes :=
   [ join [latestStatePrefixRaw]; join [historicStatePrefixRaw]; join [stateCommitmentPrefixRaw];
@@ -125,5 +129,8 @@ Definition join_agrees (c : join_case) : bool :=
   bytes_eqb (join (j_segs c)) (j_obs c) &&
   Bool.eqb (j_decodes c)
     (match decode (j_obs c) with Some l => list_beq_bytes l (j_segs c) | None => false end).
+(* the message checks on an order id of a given length: accepted iff the model accepts *)
+Record oid_case := mkOid { oc_len : N; oc_accepted : bool }.
+Definition oid_agrees (c : oid_case) : bool := Bool.eqb (order_id_ok (repeat 254%N (N.to_nat (oc_len c)))) (oc_accepted c).
 Record key_case := mkKeyCase { kc_key : skey; kc_obs : bytes }.
 Definition key_agrees (c : key_case) : bool := bytes_eqb (encode_key (kc_key c)) (kc_obs c).
